@@ -34,7 +34,7 @@ THEOREMS = {
     "SpecKitV.Lemmas.AnalyzerGlue": ["Model.channelOf_transpose", "Model.sanitise_idem", "Model.sanitise_eq_zero_fill",
                                      "Model.ctor_copy_no_foreign_write", "Model.ctor_copy_no_write", "Model.ctor_inplace_writes_caller",
                                      "Model.ctor_inplace_spares_copied", "Model.heapRun_written_ge"],
-    "SpecKitV.Props.C13": ["ctor_ops_copying", "ctor_writes_nothing", "ctor_written_ge", "ctor_result_fresh"],
+    "SpecKitV.Props.C13": ["ctor_ops_copying", "ctor_writes_nothing", "ctor_written_ge", "ctor_result_fresh", "inplace_would_write_fortran_Nx2"],
     # C13FINITE-PLACEHOLDER (filled in below when SpecKitV/Props/C13Finite.lean exists; see FINITE_THEOREMS)
 }
 # Props/C13Finite.lean (attribute table instantiated at strict partial reals) is written by another task. The theorems it is planned
